@@ -122,6 +122,40 @@ theorem resolveChain_sound (rm : Option ResolveMeta) :
         · simpa using hm
         · exact hall q hq
 
+theorem resolveChain_not_found (rm : Option ResolveMeta) :
+    ∀ (c : List (Doc × Meta)), resolveChain rm c = .err "not-found" → ∀ q ∈ c, matchesMeta q.2 rm = false := by
+  intro c
+  induction c with
+  | nil => intro _ q hq; cases hq
+  | cons x xs ih =>
+    intro h q hq
+    obtain ⟨d, m⟩ := x
+    unfold resolveChain at h
+    split at h
+    · simp at h
+    · split at h
+      · cases h
+      · rename_i hm
+        rcases List.mem_cons.mp hq with rfl | hq
+        · simpa using hm
+        · exact ih h q hq
+
+/-- the only errors `Resolve` gives on stored data are not-found and deactivated -/
+theorem resolveChain_errors (rm : Option ResolveMeta) :
+    ∀ (c : List (Doc × Meta)) (x : String), resolveChain rm c = .err x → x = "not-found" ∨ x = "deactivated" := by
+  intro c
+  induction c with
+  | nil => intro x h; simp only [resolveChain, Res.err.injEq] at h; exact Or.inl h.symm
+  | cons y ys ih =>
+    intro x h
+    obtain ⟨d, m⟩ := y
+    unfold resolveChain at h
+    split at h
+    · simp only [Res.err.injEq] at h; exact Or.inr h.symm
+    · split at h
+      · cases h
+      · exact ih x h
+
 /-- the filters of `matches()` spelled out -/
 theorem matchesMeta_some (m : Meta) (r : ResolveMeta) (h : matchesMeta m (some r) = true) :
     (m.deactivated = true → r.allowDeactivated = true) ∧
